@@ -845,3 +845,27 @@ Proof.
   - intros h' r [V R]. heap_simp_in V. exact V.
   - intros e h' V. heap_simp_in V. exact V.
 Qed.
+
+(* when no multiplication overflows, the checked loop is DecModel's unchecked [d_power] (power a uint64) *)
+Lemma power_loop_v_unchecked : forall f g d t i d' t', 0 <= i < 2 ^ Z.of_nat g ->
+  power_loop_v d_mul d_fits f d t i = Some (d', t') -> d_power_loop g d t i = (d', t').
+Proof.
+  induction f as [|f IH]; intros g d t i d' t' Hi H; cbn [power_loop_v] in H; [discriminate|].
+  destruct g as [|g].
+  - cbn in Hi. destruct (Z.ltb_spec 1 i); [lia|]. inversion H; subst. reflexivity.
+  - cbn [d_power_loop]. destruct (Z.ltb_spec 1 i) as [L|L]; [|inversion H; subst; reflexivity].
+    assert (Hq : 0 <= Z.quot i 2 < 2 ^ Z.of_nat g).
+    { rewrite Nat2Z.inj_succ, Z.pow_succ_r in Hi by lia. rewrite Z.quot_div_nonneg by lia.
+      split; [apply Z.div_pos; lia|]. apply Z.div_lt_upper_bound; lia. }
+    destruct (Z.odd i).
+    + destruct (d_fits (d_mul t d)); [|discriminate]. destruct (d_fits (d_mul d d)); [|discriminate].
+      apply (IH g _ _ _ _ _ Hq H).
+    + destruct (d_fits (d_mul d d)); [|discriminate]. apply (IH g _ _ _ _ _ Hq H).
+Qed.
+Theorem d_power_v_unchecked : forall d p v, 0 <= p < 2 ^ 64 -> d_power_v d p = Some v -> v = d_power d p.
+Proof.
+  intros d p v Hp H. unfold d_power_v, d_power in *. destruct (p =? 0); [inversion H; reflexivity|].
+  destruct (power_loop_v d_mul d_fits 65 d P18 p) as [[d' t']|] eqn:E; [|discriminate].
+  rewrite (power_loop_v_unchecked 65 64 d P18 p d' t' Hp E).
+  unfold chk_opt in H. destruct (d_fits (d_mul d' t')); inversion H. reflexivity.
+Qed.
